@@ -571,7 +571,7 @@ func parseOTLP(payload *zipkinPayload) (*v1.Span, string, error) {
 		firstLevelMap[kv.Key] = kv
 	}
 	serviceName := ""
-	for _, attr := range []string{"peer.service", "service.name", "faas.name",
+	for _, attr := range []string{"service.name", "peer.service", "faas.name",
 		"k8s.deployment.name", "process.executable.name"} {
 		if val, ok := firstLevelMap[attr]; ok && val.Value.GetStringValue() != "" {
 			serviceName = val.Value.GetStringValue()
@@ -581,9 +581,11 @@ func parseOTLP(payload *zipkinPayload) (*v1.Span, string, error) {
 	if serviceName == "" {
 		serviceName = "OTLPResourceNoServiceName"
 	}
-	firstLevelMap["service.name"] = &common.KeyValue{
-		Key:   "service.name",
-		Value: &common.AnyValue{Value: &common.AnyValue_StringValue{StringValue: serviceName}},
+	if _, ok := firstLevelMap["service.name"]; !ok {
+		firstLevelMap["service.name"] = &common.KeyValue{
+			Key:   "service.name",
+			Value: &common.AnyValue{Value: &common.AnyValue_StringValue{StringValue: serviceName}},
+		}
 	}
 	span.Attributes = make([]*common.KeyValue, 0, len(firstLevelMap))
 	for _, kv := range firstLevelMap {
